@@ -105,6 +105,8 @@ pub fn check_case(case: &Case) -> CaseResult {
         .label_if(block < 2, "block<2")
         .label_if(block >= 4096, "block>=4096")
         .label_if(data_chunks >= 4, ">=4_data_chunks")
+        .label_if(stream.len() > 64_260, "stream>64260")
+        .label_if(stream.len() > 1 << 20, "stream>1MiB")
         .label_if(case.delivery.arena_prep >= 2, "nearly_full_arena_chunk"))
 }
 
@@ -133,6 +135,12 @@ pub fn run(ctx: &Ctx, rep: &mut Report) {
         c
     });
     engine::drive(ctx, rep, "max-size-chunk", big, cases, check_case);
+    let cases = ctx.share(ctx.tier.pick(1_600, 40_000));
+    let large = (stream_in::large_stream_spec(), stream_in::delivery(), stream_in::large_block()).prop_map(|(stream, mut delivery, block)| {
+        delivery.block = block;
+        Case { stream, delivery }
+    });
+    engine::drive(ctx, rep, "large-records", large, cases, check_case);
 }
 
 fn replay(_ctx: &Ctx, _group: &str, case: &Value) -> CaseResult {
@@ -142,7 +150,7 @@ fn replay(_ctx: &Ctx, _group: &str, case: &Value) -> CaseResult {
 pub fn def() -> PropDef {
     PropDef {
         id: "C08",
-        rule: "A case is (stream description, delivery): the stream is a sequence of tokens - canonical encodings of small payloads, torn (truncated) and corrupted encodings, garbage, lone FE - each followed by 0..3 FE FD delimiters, optionally truncated as a whole; the delivery is a scripted reader (short reads down to one byte, Interrupted errors, optionally repeating), an io_block_size from {0,1,2,3,4,5,7,8,64,4096,70000,default} and an arena preparation (fresh, pre-sized, 0..4 bytes left in the current chunk; max-size-chunk: the current chunk is a 1 MiB one with 0..37 bytes left). pump is called until Eof and twice more. Oracle with running position q: Sentinel(o) has o = q+2 and the stream holds FE FD at q; Data(o, s) is non-empty, equals stream[q..o], contains no FE FD, and a Data ending in FE is never followed by a Data starting with FD; Eof only at the real end and sticky; Sentinel count = number of FE FD occurrences. Non-trivial: the stream has a delimiter and some read delivered exactly the FE of an FE FD pair last. Distinct: hash of the serialised case.",
+        rule: "A case is (stream description, delivery): the stream is a sequence of tokens - canonical encodings of small payloads, torn (truncated) and corrupted encodings, garbage, lone FE - each followed by 0..3 FE FD delimiters, optionally truncated as a whole; the delivery is a scripted reader (short reads down to one byte, Interrupted errors, optionally repeating), an io_block_size from {0,1,2,3,4,5,7,8,64,4096,70000,default} and an arena preparation (fresh, pre-sized, 0..4 bytes left in the current chunk; max-size-chunk: the current chunk is a 1 MiB one with 0..37 bytes left). large-records: 1..4 tokens built on payloads of up to 140000 bytes (one in nine of 0.5..1.3 MB: more than a default I/O block and than the arena's largest chunk), block sizes >= 64. pump is called until Eof and twice more. Oracle with running position q: Sentinel(o) has o = q+2 and the stream holds FE FD at q; Data(o, s) is non-empty, equals stream[q..o], contains no FE FD, and a Data ending in FE is never followed by a Data starting with FD; Eof only at the real end and sticky; Sentinel count = number of FE FD occurrences. Non-trivial: the stream has a delimiter and some read delivered exactly the FE of an FE FD pair last. Distinct: hash of the serialised case.",
         assumptions: &["readers only deliver short reads and Interrupted errors (hard errors and premature end of file are C17's subject)"],
         exhaustive_note: None,
         shards: |t: Tier| t.pick(8, 16),
